@@ -128,7 +128,7 @@ def sp_cfg_scale(n: size, x: [f32][n]):
         x[i] = x[i] * CfgA.s
 
 
-@instr("for(int i_=0;i_<4;i_++) {dst_data}[i_*{dst}.strides[0]] = {src_data}[i_*{src}.strides[0]];")
+@instr("for(int i_=0;i_<4;i_++) {dst}.data[i_*{dst}.strides[0]] = {src}.data[i_*{src}.strides[0]];")
 def ins_copy4(dst: [f32][4], src: [f32][4]):
     for i in seq(0, 4):
         dst[i] = src[i]
